@@ -28,6 +28,26 @@ CLAIMED = {
                  'SHUTDOWN) with refutation witnesses for each hypothesis.', 'DESIGN.md §5 C02',
                  'Known findings: SHUTTING_DOWN by the SHUTDOWN strategy without Master; USER option adopting a Master '
                  'not seen RUNNING.'),
+    'C03': claim('Executable agenda-machine model of Starter + Stopper (Python re-entrancy explicit) = real commander.py on '
+                 'closed-loop generated histories; Coq proofs for every state / every run: a group leaves the plan only when '
+                 'nothing is current and is the minimal (start) key, requests are only emitted while a popped group is '
+                 'processed and only for stopped processes, start_sequence 0 never started automatically (processes and '
+                 'applications), ABORT/STOP/CONTINUE on failure; the history-level ordering statement is evaluated by a Coq '
+                 'spec checker on every observed trace.', 'DESIGN.md §5 C03',
+                 'PARTIAL: start_request_order at history level is checked on generated traces, not proved; '
+                 'application_order is refuted (known finding c03-noresource-reentrancy); known findings '
+                 'reentrant-next-keyerror, c03-timeout-strategy. ALL_INSTANCES distribution only; placement is an oracle.'),
+    'C09': claim('Same Sequencer model and suite for the stop side: a stop group is the maximal key and is emitted in one '
+                 'step, stops only go where the process is running (proved for every run); restart/shutdown routing, '
+                 'exactly one final order per instance, FINAL terminal proved on the node model (props/C09node.v); the '
+                 'history-level stop ordering is evaluated by the Coq spec checker on every observed trace.',
+                 'DESIGN.md §5 C09', 'PARTIAL: stop_request_order at history level checked on generated traces, not proved.'),
+    'C10': claim('Coq proofs on the command model with reflected tick constants: wait_ticks formula, timed_out bound (with '
+                 'the wait_exit exception), a command is dropped once the target counter exceeds the bound or the target is '
+                 'lost, a forced state is published exactly once; job-level bound evaluated by the Coq spec checker on '
+                 'observed traces (bounded in-progress time after the last request).', 'DESIGN.md §5 C10',
+                 'PARTIAL: job_bound refuted by the known finding c03-noresource-reentrancy (orphan commands never timed '
+                 'out); fuel-sufficiency of the agenda machine not proved (theorems hold for any fuel).'),
     'C05': claim('Coq proofs: conflict detection iff a managed process runs on >= 2 instances; for each of the six '
                  'strategies the exact stop/restart request set (never outside a conflict), SENICIDE/INFANTICIDE keeper by '
                  'uptime with Python tie-breaking; conflicts cleared after the acknowledgements (via the C11 model); '
